@@ -20,6 +20,10 @@ history = {
  'C01d':'after','C02d':'frozen-other','C03d':'after','C04d':'frozen','C05d':'frozen-other','C06d':'frozen','C07d':'frozen-other','C08d':'frozen',
  'C09d':'after','C10d':'frozen','C11d':'frozen-other','C13d':'after','C14d':'after','C15d':'frozen-other','C16d':'frozen-other','C17d':'frozen-other',
  'C18d':'frozen','C19d':'frozen-other','C20d':'frozen',
+ # round e: rules frozen at tag rules-frozen-before-round-f; first run in refs/round_e_first_run.txt
+ 'C01e':'frozen-other','C02e':'frozen','C03e':'frozen','C04e':'frozen-other','C05e':'after','C06e':'frozen','C07e':'frozen-other','C08e':'frozen',
+ 'C09e':'frozen-other','C10e':'frozen','C11e':'frozen','C13e':'frozen','C14e':'after','C15e':'frozen','C16e':'frozen','C17e':'frozen-other',
+ 'C18e':'frozen','C19e':'frozen','C20e':'after',
 }
 seeds = sys.argv[1:] or sorted(d for d in os.listdir('seeded') if os.path.isdir('seeded/'+d))
 out = subprocess.run(['tools/run_seeds.sh'] + seeds, capture_output=True, text=True).stdout
